@@ -198,7 +198,7 @@ def run_check(tier: str, seed: int, workers: Any) -> Dict[str, Any]:
         v['features'] = dict(v.get('features', {}), part='workchain')
     # deeper on the smallest programs: four requests (e.g. pause, play, pause, play inside one wait)
     tiny = [((('S', (), 'wait'), ('S', (), 'ret')), None), ((('Y1', (), 'ret'),), None), ((('S', (), 'ret'),), None)]
-    deep = {'K': 4, 'J': 0} if tier == 'quick' else {'K': 5, 'J': 0}
+    deep = {'K': 4, 'J': 0} if tier == 'quick' else {'K': 6, 'J': 0}
     part3 = runner.run_explorer(
         factory, (), tiny, deep, seed, workers,
         rule=f'the three smallest programs with <= {deep["K"]} requests', assumptions=[], bounds=deep, describe=describe_unit)
